@@ -328,19 +328,27 @@ def encoded_captures(work, verdict, binary, tier, seed):
 def histories_part(work, verdict, binary, tier, seed):
     """C02 speaks of any set of loaded rules, however it came about: a sample of the histories with updates
     and deletions (the profile of C06, incl. the family built around what a removed rule may leave behind
-    in the tree) is judged for the same statement."""
-    n = 100 if tier == "quick" else 4000
-    trace = work.path("hist_trace.ndjson")
-    base = ["rules", "-profile", "c06", "-n", n, "-seed", seed + 17]
+    in the tree) is judged for the same statement; and of "additional conditions" of any sort: a sample of
+    the histories whose rules carry schemes, hosts and path_params (the profile of C03)."""
+    _histories_part(work, verdict, binary, seed + 17, "c06", 100 if tier == "quick" else 4000, "hist",
+                    "a history with updates / deletions", "histories_with_updates_and_deletions")
+    _histories_part(work, verdict, binary, seed + 23, "c03", 120 if tier == "quick" else 3000, "cond",
+                    "a history of rules with scheme / host / path_params conditions",
+                    "histories_with_additional_conditions")
+
+
+def _histories_part(work, verdict, binary, seed, profile, n, tg, what, covkey):
+    trace = work.path("%s_trace.ndjson" % tg)
+    base = ["rules", "-profile", profile, "-n", n, "-seed", seed]
     log(run_driver(binary, base + ["-trace", trace]).strip())
     lines = read_ndjson(trace)
 
     def rejected_of(rl, tag):
         out = set()
         for i, ch in enumerate(split_chunks(rl, 60000)):
-            path = work.path("hist_chunk%s_%d.ndjson" % (tag, i))
+            path = work.path("%s_chunk%s_%d.ndjson" % (tg, tag, i))
             write_ndjson(path, ch)
-            v = _judge(work, path, "_hist%s_%d" % (tag, i))
+            v = _judge(work, path, "_%s%s_%d" % (tg, tag, i))
             out |= {x for x in locate(ch, v["bad"]) if x[2].startswith("lookup") or "captures" in x[2]}
         return out
 
@@ -350,7 +358,7 @@ def histories_part(work, verdict, binary, tier, seed):
         ids = sorted({t for t, _, _ in confirmed})
         if not ids:
             break
-        tf = work.path("hist_repro%d.ndjson" % i)
+        tf = work.path("%s_repro%d.ndjson" % (tg, i))
         run_driver(binary, base + ["-trace", tf, "-only", ",".join(map(str, ids)), "-workers", 4])
         confirmed = confirmed & rejected_of(read_ndjson(tf), "_r%d" % i)
     known = load_known("C02")
@@ -364,10 +372,10 @@ def histories_part(work, verdict, binary, tier, seed):
         if k:
             verdict.known_finding(k)
             continue
-        path = save_replay("C02", "hist-trace%d-seed%d" % (t, seed), blk) if len(verdict.violations) < 20 else "(not saved)"
-        verdict.violation(path, "%s at event %d of a history with updates / deletions (%d events rejected): %s" % (
-            why, off, len(items), json.dumps(blk[off].get("req"))[:300]))
-    verdict.coverage["histories_with_updates_and_deletions"] = {
+        path = save_replay("C02", "%s-trace%d-seed%d" % (tg, t, seed), blk) if len(verdict.violations) < 20 else "(not saved)"
+        verdict.violation(path, "%s at event %d of %s (%d events rejected): %s" % (
+            why, off, what, len(items), json.dumps(blk[off].get("req"))[:300]))
+    verdict.coverage[covkey] = {
         "histories": sum(1 for ev in lines if ev["ev"] == "reset"),
         "probes": sum(1 for ev in lines if ev["ev"] == "probe"),
         "rejected": len(rejected), "reproduced": len(confirmed),
